@@ -38,11 +38,28 @@ class C11(Prop):
             "documented phase formula; periodic pulse trains. Non-trivial = >=2 blocks or maxdelay>0; distinct by case.")
     assumptions = ["the float phase formula is evaluated by the harness with the kernel's own IEEE operations "
                    "(validated, not proved)", "integer-valued data so float32 sums are exact", "whole-file folds"]
-    regimes_expected = ["fil", "fil-dm", "fil-dm-clamped-gulp", "tim", "periodic"]
+    regimes_expected = ["fil", "fil-dm", "fil-dm-clamped-gulp", "tim", "periodic", "kernel"]
     budget_s = (150, 1200)
 
+    def _kernel_case(self, rng):
+        """direct call of the compiled `kernels.fold` on a tiny block, for the GENERATED kernel (K fold)"""
+        C = rng.choice((1, 2, 3, 4))
+        nsubs = rng.choice([k for k in (1, 2, 3, 4) if k <= C])
+        nbins = rng.choice((2, 3, 4, 5))
+        nints = rng.choice((1, 2, 3))
+        md = rng.choice((0, 0, 1, 2))
+        n = rng.randint(md + 1, max(md + 1, 48 // C))
+        idx = rng.choice((0, 0, 3, 7))
+        total = idx + (n - md) + rng.choice((0, 1, 5))
+        return {"kind": "kernel", "C": C, "nsubs": nsubs, "nbins": nbins, "nints": nints, "md": md, "n": n, "idx": idx,
+                "total": total, "period": rng.choice((3, 5, 8, 7.3, 12.9, 2.5)) * TSAMP,
+                "accel": rng.choice((0.0, 0.0, 50.0, -300.0, 2.0 ** 20)), "dseed": rng.randrange(1 << 30), "g": 0, "N": n,
+                "dm": 0.0}
+
     def _case(self, rng, kind=None):
-        kind = kind or rng.choice(("fil", "fil", "fil-dm", "tim", "periodic"))
+        kind = kind or rng.choice(("fil", "fil", "fil-dm", "tim", "periodic", "kernel"))
+        if kind == "kernel":
+            return self._kernel_case(rng)
         nbins = rng.choice((2, 4, 5, 8))
         nints = rng.choice((1, 2, 3, 4))
         C = rng.choice((1, 2, 3, 4, 6, 8)) if kind != "tim" else 1
@@ -81,6 +98,8 @@ class C11(Prop):
 
     # ------------------------------------------------------------------
     def _data(self, case):
+        if case["kind"] == "kernel":
+            return np.zeros((1, 1), dtype=np.int64)
         rng = random.Random(case["dseed"])
         N, C = case["N"], case["C"]
         if case["kind"] == "periodic":
@@ -90,11 +109,58 @@ class C11(Prop):
             return x
         return spfiles.rand_data(rng, N, C, 8)
 
+    def _kernel_inputs(self, case):
+        rng = random.Random(case["dseed"])
+        C, n, md = case["C"], case["n"], case["md"]
+        x = np.array([rng.randrange(0, 16) for _ in range(n * C)], dtype=np.float32)
+        dl = np.array([rng.randint(0, md) for _ in range(C)], dtype=np.int32)
+        if md:
+            dl[rng.randrange(C)] = md
+        return x, dl
+
+    def _observe_kernel(self, case):
+        from sigpyproc.core import kernels
+        x, dl = self._kernel_inputs(case)
+        size = case["nbins"] * case["nints"] * case["nsubs"]
+        fa = np.zeros(size, dtype=np.float32)
+        ca = np.zeros(size, dtype=np.int32)
+        try:
+            kernels.fold(x, fa, ca, dl, case["md"], np.float32(TSAMP), np.float32(case["period"]),
+                         np.float32(case["accel"]), case["total"], case["n"], case["C"], case["nbins"], case["nints"],
+                         case["nsubs"], case["idx"])
+        except Exception as e:  # noqa: BLE001
+            return {"err": exc_name(e), "msg": str(e)[-200:]}
+        return {"fold": [float(v) for v in fa], "count": [int(v) for v in ca], "delays": [int(v) for v in dl]}
+
+    def _kernel_expected(self, case, dl, exact):
+        """(cell, value index) assignment of the documented formula; `exact` = rational arithmetic, else the
+        kernel's IEEE operations.  Returns None when a cell falls outside the cube."""
+        from fractions import Fraction as Fr
+        C, n, md, idx, total = case["C"], case["n"], case["md"], case["idx"], case["total"]
+        nbins, nints, nsubs = case["nbins"], case["nints"], case["nsubs"]
+        conv = (lambda v: Fr(float(np.float32(v)))) if exact else (lambda v: float(np.float32(v)))
+        ts, p, a = conv(TSAMP), conv(case["period"]), conv(case["accel"])
+        one, half, cval = (Fr(1), Fr(1, 2), Fr(299792458)) if exact else (1, 0.5, CVAL)
+        factor1 = (Fr(total) / nints) if exact else total / nints
+        factor2 = (Fr(C) / nsubs) if exact else C / nsubs
+        tobs = total * ts
+        cells = []
+        for t in range(n - md):
+            tj = (t + idx) * ts
+            phase = nbins * tj * (one + a * (tj - tobs) / (2 * cval)) / p + half
+            pb = abs(int(phase)) % nbins
+            si = (t + idx) // factor1
+            for c in range(C):
+                cells.append(int(si * nbins * nsubs + pb + (c // factor2) * nbins))
+        return cells
+
     def observe(self, case):
         from sigpyproc.core import kernels
         from sigpyproc.readers import FilReader
         from sigpyproc.timeseries import TimeSeries
 
+        if case["kind"] == "kernel":
+            return self._observe_kernel(case)
         d = common.tmpdir()
         x = self._data(case)
         N, C = x.shape
@@ -139,7 +205,34 @@ class C11(Prop):
                 cnt[si[t], sb, pb[t]] += 1
         return sums, cnt, nf, pb, si
 
+    def _oracle_kernel(self, case, obs):
+        if "err" in obs:
+            return f"kernels.fold raised {obs['err']}: {obs['msg']}"
+        x, dl = self._kernel_inputs(case)
+        C, n, md = case["C"], case["n"], case["md"]
+        cells = self._kernel_expected(case, dl, exact=False)
+        size = case["nbins"] * case["nints"] * case["nsubs"]
+        sums, cnt = [0.0] * size, [0] * size
+        k = 0
+        for t in range(n - md):
+            for c in range(C):
+                j = cells[k]
+                k += 1
+                if not 0 <= j < size:
+                    return f"documented formula gives cell {j} outside the cube of {size}"
+                sums[j] += float(x[C * (t + int(dl[c])) + c])
+                cnt[j] += 1
+        if sum(obs["count"]) != (n - md) * C:
+            return f"hit counts sum to {sum(obs['count'])}, {(n - md) * C} (sample, channel) pairs were folded"
+        if obs["count"] != cnt:
+            return f"kernel count array {obs['count']} != assignment of the documented formula {cnt}"
+        if obs["fold"] != sums:
+            return f"kernel fold array {obs['fold']} != sums of the assigned samples {sums}"
+        return None
+
     def oracle(self, case, obs):
+        if case["kind"] == "kernel":
+            return self._oracle_kernel(case, obs)
         if obs.get("skip"):
             return None
         if "err" in obs:
@@ -171,7 +264,25 @@ class C11(Prop):
         return None
 
     # ------------------------------------------------------------------
+    def _float_boundary(self, case, obs):
+        """the exact rational evaluation and the IEEE evaluation of the formula assign some sample differently
+        (a float rounding artefact at a bin / sub-integration boundary): the exact generated kernel is then not
+        comparable with the compiled one"""
+        _, dl = self._kernel_inputs(case)
+        return self._kernel_expected(case, dl, exact=True) != self._kernel_expected(case, dl, exact=False)
+
     def model_requests(self, case, obs):
+        if case["kind"] == "kernel":
+            if "err" in obs or self._float_boundary(case, obs):
+                return []
+            from fractions import Fraction as Fr
+            x, dl = self._kernel_inputs(case)
+            size = case["nbins"] * case["nints"] * case["nsubs"]
+            q = lambda v: (lambda f: f"{f.numerator}/{f.denominator}")(Fr(float(np.float32(v))))  # noqa: E731
+            z = " ".join(["0"] * size)
+            return [f"K fold {case['md']} {case['total']} {case['n']} {case['C']} {case['nbins']} {case['nints']} "
+                    f"{case['nsubs']} {case['idx']} {size} | {' '.join(str(int(v)) for v in x)} | {z} | {z} | "
+                    f"{' '.join(str(int(v)) for v in dl)} | {q(TSAMP)} {q(case['period'])} {q(case['accel'])}"]
         if obs.get("skip") or "err" in obs:
             return []
         x = self._data(case)
@@ -188,6 +299,17 @@ class C11(Prop):
 
     def model_compare(self, case, obs, answers):
         if not answers:
+            return None
+        if case["kind"] == "kernel":
+            from fractions import Fraction as Fr
+            parts = answers[0].split("|")
+            if len(parts) != 2 or not parts[0].startswith("ok"):
+                return f"generated fold kernel: {answers[0][:80]}"
+            f = [float(Fr(v)) for v in parts[0].split()[1:]]
+            c = [int(Fr(v)) for v in parts[1].split()]
+            if f != obs["fold"] or c != obs["count"]:
+                return (f"generated fold kernel (translated from the source, exact arithmetic) gives fold={f} count={c}; "
+                        f"the compiled kernel gives fold={obs['fold']} count={obs['count']}")
             return None
         t = answers[0].split()
         if t[0] != "ok":
@@ -208,6 +330,8 @@ class C11(Prop):
         return None
 
     def regime(self, case, obs):
+        if case["kind"] == "kernel":
+            return "kernel-float-boundary" if "err" not in obs and self._float_boundary(case, obs) else "kernel"
         if case["kind"] == "fil-dm" and obs.get("delays"):
             md = max(obs["delays"])
             if md > 0 and case["g"] < 2 * md and 2 * md < case["N"] - md:
